@@ -186,6 +186,15 @@ class IntAccessor(Accessor):
         return
 
 
+def json_default(o: Any) -> Any:
+    """Converts objects that the json library can't serialize by default.
+    An array of bytes is a bytearray in python, it's dumped as a list of integers.
+    """
+    if isinstance(o, (bytes, bytearray)):
+        return list(o)
+    raise TypeError(f"Object of type {o.__class__.__name__} is not JSON serializable")
+
+
 class MessageBase(Accessor):
     """MessageBase is the base class for all bitproto message classes."""
 
@@ -199,7 +208,12 @@ class MessageBase(Accessor):
         self, indent: Optional[int] = None, separators: Optional[Tuple[str, str]] = None
     ) -> str:
         """Dumps this message to a json string."""
-        return json.dumps(self.to_dict(), indent=indent, separators=separators)
+        return json.dumps(
+            self.to_dict(),
+            indent=indent,
+            separators=separators,
+            default=json_default,
+        )
 
 
 class Processor:
